@@ -169,9 +169,15 @@ def check_linear(rep, crate, cfg, rid='R01.c', only=None):
             rep.ok(rid, '%s|drops exhausted %s@%s' % (_noidx(f.kpath), ty, cfg), 'the iterator is dropped only after next() returned None')
             continue
         key = (_noidx(f.kpath), ty)
-        if f.blocks[bb].get('inl') and re.match(r'^[A-Z]\w*$', ty):
-            # a drop inside a spliced generic helper names the helper's type parameter: it stands for the one plain payload row of this function
-            rows = [k2 for k2 in table if k2[0] == key[0] and not re.match(r'^(core::option::Option|core::result::Result|alloc::vec::Vec)<', k2[1])]
+        if f.blocks[bb].get('inl') and key not in table and re.search(r'(^|[<, (])[A-Z]\w*($|[>, )])', ty):
+            # a drop inside a spliced generic helper names the helper's type parameters: match the rows of this function whose type has
+            # the same shape with a concrete type in place of each parameter (`Option<T>` ~ `Option<<Op as Operation>::Output>`)
+            shape = re.escape(ty)
+            shape = re.sub(r'(?<![\w:])([A-Z]\w*)(?![\w:])', '.+', shape)
+            rows = [k2 for k2 in table if k2[0] == key[0] and re.match('^' + shape + '$', k2[1])]
+            if len(rows) > 1 and re.match(r'^[A-Z]\w*$', ty):
+                # a bare type parameter stands for a plain payload value, not for a wrapped one
+                rows = [k2 for k2 in rows if not re.match(r'^(core::option::Option|core::result::Result|alloc::vec::Vec)<', k2[1])]
             if len(rows) == 1:
                 key = rows[0]
         counts.setdefault(key, []).append((f, bb, how))
